@@ -77,3 +77,29 @@ def drive(coro):
                 raise RuntimeError(f"real await: {y!r}")
     except StopIteration as e:
         return e.value
+
+
+def reraise(task):
+    """propagate the outcome of a finished main task of a VLoop run; a cancelled main task is a property violation
+    (something inside the code under test cancelled the caller), never a BaseException escaping the harness"""
+    if task.cancelled():
+        raise AssertionError("the operation was cancelled from inside (CancelledError reached the caller)")
+    e = task.exception()
+    if e is not None:
+        if not isinstance(e, Exception):
+            raise AssertionError("the operation ended with " + type(e).__name__)
+        raise e
+
+
+def untraced():
+    """context manager: run a concrete set-up step (pydantic validation, URI parsing) outside CrossHair's tracing"""
+    import contextlib
+
+    try:
+        from crosshair.tracers import NoTracing, is_tracing
+
+        if is_tracing():
+            return NoTracing()
+    except Exception:  # noqa: BLE001
+        pass
+    return contextlib.nullcontext()
